@@ -65,40 +65,30 @@ func ruleAztecEncoder(c *Ctx) {
 	const R = "A5-AZTEC-SIZING"
 	c.Doc(R, "aztec.EncodeWithColor: eccBits = len*pct/100 + 11; explicit request: layers = |request|, rejected iff over 4 (compact) / 32 (full), too-large iff stuffed+ecc > usable or (compact and stuffed > 64 words); automatic: i = 0.., compact = i <= 3, layers = i+1 | i, give up iff i > 32, skip iff total > capacity or (compact and stuffed > 64 words), accept iff stuffed+ecc <= usable; stuffed bits and word size are only ever updated together (stuffBits(bits, word_size[layers])); symbol size 11|14 + 4*layers (+ reference grid lines for full range); totalBitsInLayer = (88|112 + 16*layers)*layers")
 	c.Floor(R, 30)
-	if fn := c.theFunc(R, "aztec.totalBitsInLayer"); fn != nil && len(fn.Params) == 2 {
+	if fn := c.theFunc(R, "aztec.totalBitsInLayer"); fn != nil {
 		n := NewNormer(c.P)
-		n.BindParams(fn, "layers", "compact")
-		rets := returnsOf(fn)
-		var phi *ssa.Phi
-		if len(rets) == 1 {
-			var find func(v ssa.Value, d int)
-			find = func(v ssa.Value, d int) {
-				if d > 5 {
-					return
-				}
-				switch x := v.(type) {
-				case *ssa.Phi:
-					phi = x
-				case *ssa.BinOp:
-					find(x.X, d+1)
-					find(x.Y, d+1)
+		if !bindByType(n, fn, roleSpec{"layers", isIntType}, roleSpec{"compact", isBoolType}) {
+			c.Undecided(R, "aztec.totalBitsInLayer", fn.Pos(), "does not receive a layer count and a compact flag")
+		} else {
+			var alts []valCase
+			for _, ret := range returnsOf(fn) {
+				rc := n.ReachCond(fn, nil, ret.Block())
+				for _, cs := range n.valueCases(fn, nil, ret.Results[0], 0) {
+					alts = append(alts, valCase{cs.val, cAnd(rc, cs.cond)})
 				}
 			}
-			find(rets[0].Results[0], 0)
-		}
-		if phi == nil {
-			c.Undecided(R, "aztec.totalBitsInLayer", fn.Pos(), "not of the form (choice + 16*layers)*layers")
-		} else {
-			for ei := range phi.Edges {
-				n.PhiChoice[phi] = ei
-				pred := phi.Block().Preds[ei]
-				cond := cAnd(n.ReachCond(fn, nil, pred), n.EdgeCond(pred, phi.Block()))
-				isCompact, _ := CondEquivalent(cond, MustRefCond("compact"))
+			for _, cs := range mergeCases(alts) {
+				isCompact, _ := CondEquivalent(cs.cond, MustRefCond("compact"))
+				isFull, _ := CondEquivalent(cs.cond, MustRefCond("!compact"))
 				want := "(112 + 16*layers)*layers"
 				if isCompact {
 					want = "(88 + 16*layers)*layers"
 				}
-				c.expectPoly(R, fmt.Sprintf("aztec.totalBitsInLayer/compact=%v", isCompact), phi.Pos(), n, rets[0].Results[0], want)
+				if !isCompact && !isFull {
+					c.Check(R, "aztec.totalBitsInLayer/"+cs.cond.String(), fn.Pos(), false, "one formula for compact and one for full-range symbols", cs.val.String()+" when "+cs.cond.String())
+					continue
+				}
+				c.Check(R, fmt.Sprintf("aztec.totalBitsInLayer/compact=%v", isCompact), fn.Pos(), pEqual(cs.val, MustRef(want)), want, cs.val.String())
 			}
 		}
 	}
@@ -168,13 +158,18 @@ func ruleAztecEncoder(c *Ctx) {
 	}
 
 	// ---------------- explicit request
-	if lphi, ok := userT.Common().Args[0].(*ssa.Phi); ok {
+	userLayers, userCompact := argOfKind(userT.Common().Args, isIntType), argOfKind(userT.Common().Args, isBoolType)
+	if userLayers == nil || userCompact == nil {
+		c.Undecided(R, "aztec.EncodeWithColor/explicit-layers", userT.Pos(), "totalBitsInLayer is not called with a layer count and a compact flag")
+		return
+	}
+	if lphi, ok := userLayers.(*ssa.Phi); ok {
 		checkPhiDef(c, R, "aztec.EncodeWithColor/explicit-layers", n, fn, nil, lphi, []edgeSpec{{"-u", "u != 0 && u < 0"}, {"u", "u != 0 && u >= 0"}})
 		n.Bind[lphi] = "L"
 	} else {
 		c.Undecided(R, "aztec.EncodeWithColor/explicit-layers", userT.Pos(), "layers is not |request| chosen by sign")
 	}
-	c.expectCond(R, "aztec.EncodeWithColor/explicit-compact", userT.Pos(), n.CondOf(userT.Common().Args[1]), "u < 0")
+	c.expectCond(R, "aztec.EncodeWithColor/explicit-compact", userT.Pos(), n.CondOf(userCompact), "u < 0")
 	n.Bind[userT] = "T"
 	// word size
 	c.Check(R, "aztec.EncodeWithColor/explicit-wordsize", userS.Pos(), n.Norm(userS.Common().Args[1]).String() == "global:aztec.word_size[L]", "word_size[layers]", n.Norm(userS.Common().Args[1]).String())
@@ -210,13 +205,34 @@ func ruleAztecEncoder(c *Ctx) {
 
 	// ---------------- automatic loop
 	n.Bind[iphi] = "i"
-	if lphi, ok := autoT.Common().Args[0].(*ssa.Phi); ok {
-		checkPhiDef(c, R, "aztec.EncodeWithColor/auto-layers", n, fn, loopHdr, lphi, []edgeSpec{{"i + 1", "i <= 32 && i <= 3"}, {"i", "i <= 32 && i > 3"}})
-		n.Bind[lphi] = "L2"
-	} else {
-		c.Undecided(R, "aztec.EncodeWithColor/auto-layers", autoT.Pos(), "layers is not chosen from the loop counter")
+	autoLayers, autoCompact := argOfKind(autoT.Common().Args, isIntType), argOfKind(autoT.Common().Args, isBoolType)
+	if autoLayers == nil || autoCompact == nil {
+		c.Undecided(R, "aztec.EncodeWithColor/auto-layers", autoT.Pos(), "totalBitsInLayer is not called with a layer count and a compact flag")
+		return
 	}
-	c.expectCond(R, "aztec.EncodeWithColor/auto-compact", autoT.Pos(), n.CondOf(autoT.Common().Args[1]), "i <= 3")
+	{
+		// layers = i+1 for the four compact sizes, i afterwards (a phi or the result of a helper)
+		reach := n.ReachCond(fn, loopHdr, autoT.Block())
+		wantL := map[string]string{MustRef("i + 1").String(): "i <= 3", "i": "i > 3"}
+		seenL := map[string]bool{}
+		for _, cs := range n.valueCases(fn, loopHdr, autoLayers, 0) {
+			v := cs.val.String()
+			w, ok := wantL[v]
+			if !ok {
+				c.Check(R, "aztec.EncodeWithColor/auto-layers/"+v, autoT.Pos(), false, "i+1 (compact) or i", v+" when "+cs.cond.String())
+				continue
+			}
+			seenL[v] = true
+			c.expectCondC(R, "aztec.EncodeWithColor/auto-layers/"+v, autoT.Pos(), cAnd(reach, cs.cond), cAnd(reach, MustRefCond(w)))
+		}
+		for v := range wantL {
+			if !seenL[v] {
+				c.Check(R, "aztec.EncodeWithColor/auto-layers/"+v, autoT.Pos(), false, "layers = "+v+" when "+wantL[v], "never")
+			}
+		}
+		n.Bind[autoLayers] = "L2"
+	}
+	c.expectCond(R, "aztec.EncodeWithColor/auto-compact", autoT.Pos(), n.CondOf(autoCompact), "i <= 3")
 	n.Bind[autoT] = "T2"
 	// paired state (wordSize, stuffedBits)
 	wsAtom := "global:aztec.word_size[L2]"
